@@ -49,6 +49,18 @@ def treeBaseSeed (E : Env α) (names : List String) (comb : List Nat) : UInt64 :
 def buildRows (E : Env α) (c : FCtx α) (rowLimit : Int) (root : Node α) : Option (Node α) :=
   (List.range (c.data.size - 1)).foldlM (fun t i => addRow E c rowLimit 4000 0 t (i + 1)) root
 
+/-- the 1-dim tree of column `j`: every row inserted, then the root pushed down; `none` = budget exhausted -/
+def tree1 (E : Env α) (ctx : FCtx α) (names : List String) (rowFraction : Nat) (snapped0 : List (Ival α)) (j : Nat) :
+    Option (Node α) :=
+  let seed := treeBaseSeed E names [j]
+  let rowLimit := noisyRowLimit E ctx.ap.salt seed ctx.data.size rowFraction
+  (buildRows E ctx rowLimit (mkLeaf E ctx [j] [] seed [] [snapped0.getD j default] 0)).bind (pushDown E ctx 4000)
+
+/-- the normalised table: nulls replaced by the column's stand-in -/
+def forestData (raw : Array (Array (Option α))) (ncols : Nat) (nullMaps : List α) : Array (Array α) :=
+  raw.map (fun r => (List.range ncols).toArray.map (fun j =>
+    match (r[j]?).join with | some v => v | none => nullMaps.getD j (ofInt 0)))
+
 /-- `Forest.__init__` -/
 def Forest.init (E : Env α) (inp : ForestIn α) : Except String (Forest α) := do
   let ncols := inp.names.length
@@ -56,14 +68,9 @@ def Forest.init (E : Env α) (inp : ForestIn α) : Except String (Forest α) := 
   let nullMaps := hulls.map nullMapping
   let expanded := List.zipWith (fun h nm => h.expand nm) hulls nullMaps
   let snapped0 ← expanded.mapM (fun iv => match snapFuel 64 iv with | some s => pure s | none => throw "fuel")
-  let data : Array (Array α) := inp.raw.map (fun r => (List.range ncols).toArray.map (fun j =>
-    match (r[j]?).join with | some v => v | none => nullMaps.getD j (ofInt 0)))
-  let ctx : FCtx α := { data, pids := inp.pids, ap := inp.ap, bp := inp.bp, kind := inp.kind }
+  let ctx : FCtx α := { data := forestData inp.raw ncols nullMaps, pids := inp.pids, ap := inp.ap, bp := inp.bp, kind := inp.kind }
   let trees1 ← (List.range ncols).mapM (fun j =>
-    let seed := treeBaseSeed E inp.names [j]
-    let rowLimit := noisyRowLimit E inp.ap.salt seed data.size inp.bp.rowFraction
-    let root := mkLeaf E ctx [j] [] seed [] [snapped0.getD j default] 0
-    match (buildRows E ctx rowLimit root).bind (pushDown E ctx 4000) with
+    match tree1 E ctx inp.names inp.bp.rowFraction snapped0 j with
     | some t => pure t
     | none => throw "fuel")
   let snapped := trees1.map (fun t => t.data.snapped.getD 0 default)
